@@ -187,6 +187,8 @@ def scenarios(ctx):
                        sub_shapes=('str',), unsub_shapes=('str',), windows=(1, 2),
                        budgets=dict(sub=2, unsub=1, ack=2, tick=1, lose=1 if q else 2, rebuild=1 if q else 2,
                                     connect=1 if q else 2, connack=1 if q else 2, setwin=1)))
+    out.append(Std('sub-callback-returns-deferred', profile='sub', init=CONNECTED, cb_deferred=True, windows=(1, 2),
+                   budgets=dict(sub=3, unsub=2, ack=3, setwin=1, tick=1)))
     # subscribe() called from the callback of connect() of a resumed session with requests carried over
     out.append(Std('sub-reenter-connected', profile='sub', init=(('connect', 0, False, 0, 4), ('connack', 0, 0, False), ('setwin', 0, 2)),
                    connects=[(False, 0, 4)], reconnects=[(False, 0, 4)], sub_shapes=('str',), unsub_shapes=('str',),
